@@ -654,7 +654,7 @@ pub fn run(ctx: &mut Ctx) -> Result<(), Violation> {
     });
     ctx.stage("repository-files-in-process", true, r)?;
 
-    let cases = ctx.tier.pick(500_000, 10_000_000);
+    let cases = ctx.tier.cases(500_000, 10_000_000);
     let r = par_random(ctx, "random-in-process", cases, 220, |tape, st| {
         let mut t = Tape::new(tape);
         let (kind, bytes) = gen_bytes(&mut t, st);
